@@ -2,7 +2,7 @@
      xe_safe / extract_element_safe      the repaired extract_element never returns XOOB (any input)
      xe_consumed / extract_element_ok    a successful extraction consumes between 2 and |from| bytes,
                                          at least |tag| + 2
-     xfw_safe / extract_fw_safe          extract_element_fixed_width under bounded digit runs
+     xfw_safe / extract_fw_safe          the repaired extract_element_fixed_width never returns XOOB
      extract_header_safe / _len          extract_header: no OOB; a MsgType text implies >= 7 bytes *)
 From Coq Require Import NArith ZArith List Bool Lia.
 From F8 Require Import Codec.Bytes Codec.Meta Codec.Extract Codec.Decode C03.Bounds.
@@ -133,94 +133,39 @@ Proof.
   intros H. injection H as _ <-. reflexivity.
 Qed.
 
-(* ------------------------------------------------------------------ extract_element_fixed_width *)
-Lemma digit_runs_step cap dk c r : digit_runs_ok cap dk (c :: r) = true -> is_digit c = true ->
-  dk + 1 < cap /\ digit_runs_ok cap (dk + 1) r = true.
+(* ------------------------------------------------------------------ extract_element_fixed_width
+   (repaired by /repo ce1e2cc: bounded digits, val_sz test, terminated tag) *)
+Lemma xfw_safe tcap vcap val_sz : forall from sz ii tag nt,
+  sz <= ii + lenN from -> forall s, xfw_loop from sz ii val_sz tag nt tcap vcap <> XOOB s.
 Proof.
-  cbn [digit_runs_ok]. intros H E. rewrite E in H. apply andb_true_iff in H. destruct H as [H1 H2].
-  apply N.ltb_lt in H1. auto.
-Qed.
-
-Lemma digit_runs_mono cap : forall l dk dk', digit_runs_ok cap dk l = true -> dk' <= dk -> digit_runs_ok cap dk' l = true.
-Proof.
-  induction l as [|c r IH]; intros dk dk' H Hd; [reflexivity|].
-  cbn [digit_runs_ok] in *. apply andb_true_iff in H. destruct H as [H1 H2]. apply N.ltb_lt in H1.
-  destruct (is_digit c).
-  - apply andb_true_iff. split; [apply N.ltb_lt; lia|]. apply (IH (dk + 1)); [exact H2|lia].
-  - apply andb_true_iff. split; [apply N.ltb_lt; lia|]. exact H2.
-Qed.
-
-Lemma digit_runs_skip cap : forall l n, digit_runs_ok cap 0 l = true -> digit_runs_ok cap 0 (skipN n l) = true.
-Proof.
-  induction l as [|c r IH]; intros n H; [reflexivity|].
-  destruct (N.eq_dec n 0) as [->|Hn]; [rewrite skipN_0; exact H|].
-  rewrite skipN_cons_pos by lia. apply IH.
-  cbn [digit_runs_ok] in H. apply andb_true_iff in H. destruct H as [_ H].
-  apply (digit_runs_mono cap r _ 0 H). lia.
-Qed.
-
-Lemma xfw_safe cap tcap vcap val_sz : cap <= tcap -> val_sz < vcap -> forall from sz ii tag nt dk,
-  digit_runs_ok cap dk from = true -> dk < cap -> nt <= dk -> sz <= ii + lenN from ->
-  forall s, xfw_loop from sz ii val_sz tag nt tcap vcap <> XOOB s.
-Proof.
-  intros Ht Hvs. induction from as [|c rest IH]; intros sz ii tag nt dk Hr Hk Hnt Hsz s.
-  - cbn [xfw_loop]. destruct (ii <? sz) eqn:E.
-    + apply N.ltb_lt in E. cbn in Hsz. lia.
-    + rewrite zero_write_ok by lia. discriminate.
-  - cbn [xfw_loop]. destruct (ii <? sz) eqn:E; [|rewrite zero_write_ok by lia; discriminate].
+  induction from as [|c rest IH]; intros sz ii tag nt Hsz s.
+  - cbn [xfw_loop]. destruct (ii <? sz) eqn:E; [|discriminate].
+    apply N.ltb_lt in E. cbn in Hsz. lia.
+  - cbn [xfw_loop]. destruct (ii <? sz) eqn:E; [|discriminate].
     rewrite lenN_cons in Hsz.
-    destruct (is_digit c) eqn:Ed.
-    + destruct (digit_runs_step _ _ _ _ Hr Ed) as [Hk1 Hr1].
-      destruct (nt <? tcap) eqn:En; [|apply N.ltb_ge in En; lia].
-      apply (IH _ _ _ _ (dk + 1)); try assumption; lia.
-    + destruct (negb (c =? EQC) || (sz <? ii + 1 + val_sz)) eqn:Eb; [rewrite zero_write_ok by lia; discriminate|].
-      apply orb_false_iff in Eb. destruct Eb as [_ Eb]. apply N.ltb_ge in Eb.
-      destruct (val_sz <? vcap) eqn:Ev; [|apply N.ltb_ge in Ev; lia]. cbn [negb].
-      rewrite lenN_firstN by lia. rewrite N.ltb_irrefl. discriminate.
-Qed.
-
-(* without the bound: the only memory error left is the tag write *)
-Lemma xfw_sites tcap vcap val_sz : val_sz < vcap -> forall from sz ii tag nt,
-  sz <= ii + lenN from ->
-  forall s, xfw_loop from sz ii val_sz tag nt tcap vcap = XOOB s -> s = site_tag_write.
-Proof.
-  intros Hvs. induction from as [|c rest IH]; intros sz ii tag nt Hsz s.
-  - cbn [xfw_loop]. destruct (ii <? sz) eqn:E.
-    + apply N.ltb_lt in E. cbn in Hsz. lia.
-    + unfold zero_write. destruct (negb (nt <? tcap)); [intros H; injection H as <-; reflexivity|].
-      destruct (0 <? vcap) eqn:E0; [discriminate|apply N.ltb_ge in E0; lia].
-  - cbn [xfw_loop]. rewrite lenN_cons in Hsz.
-    assert (Hz : forall k, zero_write nt 0 tcap vcap k = XOOB s -> (forall s', k <> XOOB s') -> s = site_tag_write).
-    { intros k. unfold zero_write. destruct (negb (nt <? tcap)); [intros H _; injection H as <-; reflexivity|].
-      destruct (0 <? vcap) eqn:E0; [|apply N.ltb_ge in E0; lia]. cbn [negb]. intros H Hk. exfalso. exact (Hk _ H). }
-    destruct (ii <? sz) eqn:E; [|intros H; apply (Hz _ H); discriminate].
     destruct (is_digit c).
-    + destruct (nt <? tcap); [|intros H; injection H as <-; reflexivity].
-      apply IH. lia.
-    + destruct (negb (c =? EQC) || (sz <? ii + 1 + val_sz)) eqn:Eb; [intros H; apply (Hz _ H); discriminate|].
+    + destruct (nt + 1 <? tcap); [|discriminate]. apply IH. lia.
+    + destruct (negb (c =? EQC) || negb (val_sz <? vcap) || (sz <? ii + 1 + val_sz)) eqn:Eb; [discriminate|].
       apply orb_false_iff in Eb. destruct Eb as [_ Eb]. apply N.ltb_ge in Eb.
-      destruct (val_sz <? vcap) eqn:Ev; [|apply N.ltb_ge in Ev; lia]. cbn [negb].
       rewrite lenN_firstN by lia. rewrite N.ltb_irrefl. discriminate.
 Qed.
 
-Lemma extract_fw_safe cap tcap vcap from sz val_sz :
-  cap <= tcap -> val_sz < vcap -> 0 < cap -> digit_runs_ok cap 0 from = true -> sz <= lenN from ->
+Lemma extract_fw_safe tcap vcap from sz val_sz :
+  0 < tcap -> 0 < vcap -> sz <= lenN from ->
   forall s, extract_element_fixed_width from sz val_sz tcap vcap <> XOOB s.
 Proof.
-  intros Ht Hv H0 Hr Hsz s. unfold extract_element_fixed_width.
+  intros Ht Hv Hsz s. unfold extract_element_fixed_width.
   destruct (0 <? tcap) eqn:E1; [|apply N.ltb_ge in E1; lia].
   destruct (0 <? vcap) eqn:E2; [|apply N.ltb_ge in E2; lia]. cbn [andb].
-  apply (xfw_safe cap tcap vcap val_sz Ht Hv from sz 0 [] 0 0); try assumption; lia.
+  apply xfw_safe. lia.
 Qed.
 
-Lemma extract_fw_sites tcap vcap from sz val_sz s :
-  0 < tcap -> val_sz < vcap -> sz <= lenN from ->
-  extract_element_fixed_width from sz val_sz tcap vcap = XOOB s -> s = site_tag_write.
+(* the terminated tag buffer always reads as a C string *)
+Lemma cstr_known_terminated : forall d r, cstr_known (d ++ 0 :: r) <> None.
 Proof.
-  intros Ht Hv Hsz. unfold extract_element_fixed_width.
-  destruct (0 <? tcap) eqn:E1; [|apply N.ltb_ge in E1; lia].
-  destruct (0 <? vcap) eqn:E2; [|apply N.ltb_ge in E2; lia]. cbn [andb].
-  apply xfw_sites; [exact Hv|lia].
+  induction d as [|x d IH]; intros r; cbn [app cstr_known].
+  - rewrite N.eqb_refl. discriminate.
+  - destruct (x =? 0); [discriminate|]. specialize (IH r). destruct (cstr_known (d ++ 0 :: r)); [discriminate|contradiction].
 Qed.
 
 (* ------------------------------------------------------------------ extract_header *)
